@@ -14,7 +14,7 @@ WITNESSES = ['prog-format-fact', 'prog-set-fact', 'prog-narrow-float-format']
 
 
 def _programs(tier):
-    return [p for p in corpus.P if 'no_analysis' not in p['tags'] and ('analysis' in p['tags'] or 'semantics' in p['tags'] or 'context' in p['tags'] or 'simplify' in p['tags'])]
+    return [p for p in corpus.P if 'no_analysis' not in p['tags'] and 'no_format' not in p['tags'] and ('analysis' in p['tags'] or 'semantics' in p['tags'] or 'context' in p['tags'] or 'simplify' in p['tags'])]
 
 
 def tasks(tier, seed):
